@@ -946,6 +946,17 @@ func (ms *moduleStore) getModule(name string) (moduleStoreItem, bool) {
 	return indexes, ok
 }
 
+func (ms *moduleStore) clone() moduleStore {
+	cp := moduleStore{count: ms.count}
+	if ms.store != nil {
+		cp.store = make(map[string]moduleStoreItem, len(ms.store))
+		for k, v := range ms.store {
+			cp.store[k] = v
+		}
+	}
+	return cp
+}
+
 func (ms *moduleStore) reset() {
 	if ms == nil {
 		return
